@@ -52,6 +52,8 @@ def run(ctx):
         regrid(ctx, rng, xr, utils)
     for i, rng in ctx.cases("rotate", ctx.n(600, 20000)):
         rotate(ctx, rng, xr)
+    for i, rng in ctx.cases("rotate_irregular", ctx.n(300, 8000)):
+        rotate_irregular(ctx, rng, xr)
 
 
 def source(rng, xr, exact=False):
@@ -217,6 +219,56 @@ def regrid(ctx, rng, xr, utils):
             ref = ref * (h_in / h_ref)
         ok, worst = close(eo, ref, 1e-9 * T, atol=1e-9 * T * max(np.abs(ref).max(), 1e-300))
         (rec.ok("reference", key) if ok else rec.bad("reference", key, dict(det, position=p, worst_over_tol=worst, output=eo, reference=ref, input=ei), "regrid-differs-from-linear-interpolant"))
+
+
+def rotate_irregular(ctx, rng, xr):
+    """Rotation is a regridding with the default variance conservation: on direction axes that are not a regular
+    once-around circle (closing 0/360 bin stored twice, a bin or two missing) every record still keeps its axes, stays
+    non-negative and keeps the significant height the accessor measures on that axis."""
+    rec = ctx.rec
+    x, stored, lnames = source(rng, xr, exact=True)
+    cd = x.attrs.pop("_coord_dtype")
+    if cd == "float32":
+        return
+    if stored != "dup360":
+        n = x.sizes["dir"]
+        if n < 6:
+            return
+        srt = x.sortby("dir")
+        drop = sorted(set(int(v) for v in rng.choice(np.arange(1, n), size=int(rng.integers(1, 3)), replace=False)))
+        x = srt.isel(dir=[i for i in range(n) if i not in drop])
+        stored = "gapped%d" % len(drop)
+    th = x.dir.values.astype("float64")
+    f = x.freq.values.astype("float64")
+    step = float(np.min(np.diff(np.sort(th))))
+    kind = str(rng.choice(["bins", "any", "full_turn"]))
+    angle = {"bins": float(int(rng.integers(-10, 11)) * step), "full_turn": 360.0}.get(kind, float(rng.uniform(-400, 400)))
+    key = "rotate_irregular:%s|src=%s|nf=%d|nd=%d|lead=%d" % (kind, stored, len(f), len(th), len(lnames))
+    try:
+        h0 = np.asarray(x.spec.hs().values, dtype="float64").reshape(-1)
+        r = x.spec.rotate(angle)
+        h1 = np.asarray(r.spec.hs().values, dtype="float64").reshape(-1)
+    except Exception as e:
+        rec.bad("rotate_irregular", key, {"raised": repr(e)[:300], "angle": angle, "dir": th}, "rotate-raises")
+        return
+    det = {"angle": angle, "dir": th, "freq": f}
+    if tuple(r.dims) != tuple(x.dims) or not np.array_equal(r.dir.values, x.dir.values) or not np.array_equal(r.freq.values, x.freq.values):
+        rec.bad("rotate_irregular", key, dict(det, dir_out=r.dir.values), "rotate-changes-coordinates")
+        return
+    v = np.asarray(r.values, dtype="float64")
+    if np.isnan(v).any() or v.min() < -1e-12 * max(float(np.abs(x.values).max()), 1e-300):
+        rec.bad("rotate_irregular", key, dict(det, min=float(np.nanmin(v)), nans=int(np.isnan(v).sum())), "rotate-negative-energy" if not np.isnan(v).any() else "rotate-nan")
+        return
+    for p in range(h0.size):
+        if h0[p] <= 0:
+            (rec.ok("rotate_irregular", key) if h1[p] == 0 else rec.bad("rotate_irregular", key, dict(det, position=p, hs_in=h0[p], hs_out=h1[p]), "rotate-changes-hs"))
+        elif h1[p] == 0:
+            # every bit of energy turned into the gap of the axis: nothing left to rescale (not a conservation failure)
+            rec.skip("rotate_irregular", "all energy rotated off the stored directions")
+        elif abs(h1[p] - h0[p]) <= 1e-9 * h0[p]:
+            rec.ok("rotate_irregular", key, sample={"angle": angle, "hs": h0[p]})
+        else:
+            rec.bad("rotate_irregular", key, dict(det, position=p, hs_in=h0[p], hs_out=h1[p]), "rotate-changes-hs")
 
 
 def rotate(ctx, rng, xr):
